@@ -236,6 +236,15 @@ def run(ctx):
                          ([("prov:value", Identifier(g.choice(['http://h/res/x" bgcolor="red', "http://h/q?a=1&b=<2>", "http://h/plain"])))]
                           if g.chance(0.5) else []) +
                          ([("prov:location", QualifiedName(ns, g.choice(['l"oc', "loc"])))] if g.chance(0.3) else []))
+        if g.chance(0.25) and w.conts[d].is_document():
+            # a bundle whose own name is hostile: the cluster's label and URL are strings of the DOT text like any other
+            from prov.identifier import Namespace
+            bns = Namespace("bq", g.choice(["http://h/bundles/", "http://h/back\\slash\\", 'http://h/q"uote/']))
+            hb, _e = w.bundle(d, QualifiedName(bns, g.choice(["C:\\runs\\r1", 'say "hi"', "tail\\", 'x\\"y', "plain", "a<b&c"])))
+            if hb is not None:
+                b._init_scope(hb)
+                w.new_record(hb, "Entity", QualifiedName(Namespace("ex", "http://example.org/"), "inside%d" % g.rng.randint(0, 9)), [])
+                ctx.count("hostile-bundle-name")
         if g.chance(0.2):
             if b.lookalike(d):
                 ctx.count("lookalike-names")
